@@ -7,7 +7,15 @@ use crate::plan::{Intent, Op};
 use crate::reg::Reg;
 use crate::world::{Outcome, RunRecord};
 use rt::spec::{ContractSpec, Entry, HandlerSpec, Kind};
+use rt::bb::Ev;
 use serde_json::{Map, Value};
+use std::collections::BTreeMap;
+
+/// every member is a parameter, and every parameter is there (one with a forwarded serde
+/// default may be left out)
+fn covers(h: &HandlerSpec, body: &Map<String, Value>) -> bool {
+    body.keys().all(|k| h.args.iter().any(|a| a.name == k)) && h.args.iter().all(|a| body.contains_key(a.name) || !a.default.is_empty())
+}
 
 /// the handler a document is addressed to, read off the document and the SPEC alone
 pub fn derive_intent<'a>(
@@ -36,7 +44,7 @@ pub fn derive_intent<'a>(
                 return None;
             }
             let h = hs[0];
-            if body.len() == h.args.len() && h.args.iter().all(|a| body.contains_key(a.name)) {
+            if covers(h, body) {
                 Some((h, body.clone()))
             } else {
                 None
@@ -44,7 +52,7 @@ pub fn derive_intent<'a>(
         }
         Kind::Instantiate | Kind::Migrate => {
             let h = spec.of_kind(kind).next()?;
-            if o.len() == h.args.len() && h.args.iter().all(|a| o.contains_key(a.name)) {
+            if covers(h, o) {
                 Some((h, o.clone()))
             } else {
                 None
@@ -118,6 +126,49 @@ fn owner_reading(e: &Entry, kind: Kind, h: &HandlerSpec, bytes: &[u8]) -> Option
     }
 }
 
+/// Contract values that carry in-memory state (a tag given at construction, a call counter):
+/// the deployment that was handed a value (`Box<dyn Contract>`) runs every handler on that very
+/// value, the generated entry points on what the parameterless constructor builds.
+fn receiver_check(events: &[Ev], op: u32, reg: &Reg, calls_seen: &mut BTreeMap<u64, u64>, cells: &mut Cells, out: &mut Vec<Finding>) {
+    // flavour of the innermost open delivery, per world
+    let mut stack: [Vec<u8>; 2] = [vec![], vec![]];
+    for e in events {
+        match e {
+            Ev::Deliver { world, flavour, .. } => stack[(*world as usize).min(1)].push(*flavour),
+            Ev::Return { world, .. } => {
+                stack[(*world as usize).min(1)].pop();
+            }
+            Ev::Enter { world, cid, handler, args, .. } => {
+                let Some(me) = args.get("__self") else { continue };
+                if !reg.get(cid).map(|e| e.spec.has_tag("stateful")).unwrap_or(false) {
+                    continue;
+                }
+                let Some(flavour) = stack[(*world as usize).min(1)].last().copied() else { continue };
+                let tag = me["tag"].as_u64().unwrap_or(u64::MAX);
+                let calls = me["calls"].as_u64().unwrap_or(u64::MAX);
+                match flavour {
+                    0 => {
+                        cells.hit("c02.receiver|value");
+                        let seen = calls_seen.entry(tag).or_insert(0);
+                        if tag == 0 || calls != *seen {
+                            out.push(Finding::new("C02", "c02.receiver", op, format!("{cid}: {handler} ran on a contract value with tag {tag} after {calls} calls; the deployed value (a non-zero tag) has served {} calls so far", *seen)));
+                        }
+                        *seen += 1;
+                    }
+                    1 => {
+                        cells.hit("c02.receiver|constructed");
+                        if tag != 0 || calls != 0 {
+                            out.push(Finding::new("C02", "c02.receiver", op, format!("{cid}: under the generated entry point {handler} ran on a value with tag {tag} after {calls} calls, not on a freshly constructed one")));
+                        }
+                    }
+                    _ => {}
+                }
+            }
+            _ => {}
+        }
+    }
+}
+
 pub struct Which {
     pub c02: bool,
     pub c04: bool,
@@ -125,6 +176,7 @@ pub struct Which {
 
 pub fn check(rec: &RunRecord, ops: &[&Op], reg: &Reg, which: &Which, cells: &mut Cells) -> Vec<Finding> {
     let mut out = vec![];
+    let mut calls_seen: BTreeMap<u64, u64> = BTreeMap::new();
     for (i, op) in rec.ops.iter().enumerate() {
         let worlds: &[u8] = if op.outcome1.is_some() { &[0, 1] } else { &[0] };
         for w in worlds {
@@ -283,6 +335,7 @@ pub fn check(rec: &RunRecord, ops: &[&Op], reg: &Reg, which: &Which, cells: &mut
             });
         }
         if which.c02 {
+            receiver_check(&op.events, op.idx, reg, &mut calls_seen, cells, &mut out);
             if let Outcome::Panic(p) = &op.outcome {
                 out.push(Finding::new("C02", "c02.panic", op.idx, format!("operation panicked: {p}")));
             }
